@@ -1558,6 +1558,59 @@ fn reader(ctx: &Ctx, slot: usize, role: Role, seed: u64) {
 
 // ------------------------------------------------------------------ one run
 
+/// Size of the chain database file (the LMDB environment of the node) under `dir`.
+fn db_file_size(dir: &str) -> u64 {
+	fn walk(p: &std::path::Path, best: &mut u64) {
+		if let Ok(rd) = std::fs::read_dir(p) {
+			for e in rd.flatten() {
+				let path = e.path();
+				if path.is_dir() {
+					walk(&path, best);
+				} else if path.file_name().map(|n| n == "data.mdb").unwrap_or(false) {
+					*best = (*best).max(e.metadata().map(|m| m.len()).unwrap_or(0));
+				}
+			}
+		}
+	}
+	let mut best = 0;
+	walk(std::path::Path::new(dir), &mut best);
+	best
+}
+
+/// The database map grows in steps (1 MiB under the test parameters) once 90 % of it is used; the enlargement has to
+/// wait until no transaction is open on the environment and keeps new ones out meanwhile (`Store::enter_tx`). A short
+/// run never gets there on its own: unrelated records (headers nobody refers to) are stored first until the file is
+/// just below the threshold, so that the blocks of the concurrent phase cross it while every thread is busy.
+fn pad_store_to_the_resize_threshold(chain: &Chain, dir: &str, p: &mut Prng) -> u64 {
+	const THRESHOLD: u64 = 943_718; // 0.9 MiB
+	let store = chain.store();
+	let mut n = 0u64;
+	loop {
+		let size = db_file_size(dir);
+		if size + 12_000 >= THRESHOLD || size >= THRESHOLD || n > 5_000 {
+			return size;
+		}
+		let step = if size + 60_000 < THRESHOLD { 40 } else { 2 };
+		let batch = match store.batch() {
+			Ok(b) => b,
+			Err(_) => return size,
+		};
+		let mut batch = batch;
+		for _ in 0..step {
+			let mut h = BlockHeader::default();
+			h.height = 1_000_000 + n;
+			vcommon::world::skip_pow_proof(&mut h, p);
+			if batch.save_block_header(&h).is_err() {
+				return size;
+			}
+			n += 1;
+		}
+		if batch.commit().is_err() {
+			return size;
+		}
+	}
+}
+
 struct RunCfg {
 	k: u64,
 	rep: u64,
@@ -1607,6 +1660,13 @@ fn execute_run(run: &Run, w: &WorldData, rc: &RunCfg, sc: &Scratch, san: bool) -
 	}
 
 	let mut pp = Prng::new(rc.plan_seed);
+	// every second run starts with the database just below its first enlargement
+	let padded_to = if rc.k % 2 == 0 && !san {
+		let mut padp = Prng::new(rc.plan_seed ^ 0x9AD);
+		pad_store_to_the_resize_threshold(&chain, &dir, &mut padp)
+	} else {
+		0
+	};
 	let plans = make_plans(w, &mut pp);
 	let mut roles = vec![Role::Head, Role::Utxo, Role::Template];
 	for _ in 0..pp.usize_below(3) {
@@ -1864,6 +1924,12 @@ fn execute_run(run: &Run, w: &WorldData, rc: &RunCfg, sc: &Scratch, san: bool) -
 	}
 	tick(0, OP_IDLE);
 	MON_ACTIVE.store(false, Ordering::SeqCst);
+	if padded_to > 0 {
+		run.count("runs_started_just_below_a_database_map_enlargement", 1);
+		if db_file_size(&dir) > 943_718 {
+			run.count("runs_that_crossed_a_database_map_enlargement", 1);
+		}
+	}
 	let concurrent_dups = ctx.concurrent_dups.load(Ordering::SeqCst);
 	let compactions = ctx.compactions.load(Ordering::SeqCst);
 	drop(ctx);
@@ -2466,6 +2532,7 @@ fn main() {
 	req("segmenter.ok", 600, 5000);
 	req("segment.roots_checked", 500, 4000);
 	req("sched_points_perturbed", 10000, 100000);
+	req("runs_that_crossed_a_database_map_enlargement", 40, 400);
 	req("same_plan_other_schedule_gave_other_interleaving", 10, 100);
 	if run.n_violations() == 0 {
 		req("diverged_header_chain.states_where_the_header_chain_covers_the_body_height", 12, 48);
